@@ -48,6 +48,7 @@ def main():
     ap.add_argument("--replay")
     ap.add_argument("--no-build", action="store_true")
     ap.add_argument("--no-shrink", action="store_true")
+    ap.add_argument("--ignore-known", action="store_true", help="report violations that match an open known finding as well (triage)")
     ap.add_argument("--no-corpus", action="store_true", help="skip the regression corpus (used when looking for a fresh witness)")
     ap.add_argument("--no-evidence", action="store_true", help="do not rewrite evidence/<id>.json (runs against a deliberately modified tree)")
     ap.add_argument("--max-report", type=int, default=5)
@@ -68,7 +69,7 @@ def main():
     t0 = time.time()
     print(f"VERIF_SEED={seed} property={prop} tier={tier} workers={engine.WORKERS} build_s={build_s:.1f}")
 
-    known = engine.load_known()
+    known = [] if a.ignore_known else engine.load_known()
     stats = Counter()
     per_plan = []
     harness = []
